@@ -18,7 +18,9 @@ How the source is run (everything else is the unmodified code):
     defaults (`scan_rate = 8 / 3.`, `sampling_interval = abs(scan_rate) / scan_len`, `frequency=1 / 6.0`,
     `np.deg2rad(-scan_angle)`, `np.arctan2(11.87 / 2, 824.0)`) are therefore expressions over the literals of the
     source text and not doubles (DESIGN 2.4: the real-number reading of a literal is the number written in the
-    source).  A double that still reaches the tracer (int / int) is mapped back through symtrace.collect_folded.
+    source).  A double that still reaches the tracer (a numpy function of an int, say) is emitted as the decimal its
+    shortest repr denotes or, when it is the value of a constant sub-expression of the source, as that expression
+    (symtrace.collect_folded); if that is not the intended real number the Lean proof fails, it cannot pass wrongly.
   * CUT POINTS (numpy library calls that leave the `Num` signature):
       `np.linspace(a, b, n)`            -> the array of opaque nodes `linspaceK a b n i` (defined in the generated
                                            file after numpy's algorithm); indexing it with symbolic points gives
